@@ -47,7 +47,7 @@ type report struct {
 var (
 	flagDir      = flag.String("dir", ".", "module directory to load from")
 	flagFull     = flag.String("full", "github.com/openfga/language/pkg/go", "import path prefix that gets every rewrite")
-	flagMapOnly  = flag.String("maponly", "gonum.org/v1/gonum/graph", "import path prefix that gets the map-range rewrite only")
+	flagMapOnly  = flag.String("maponly", "gonum.org/v1/gonum/graph,github.com/antlr4-go/antlr/v4", "comma separated import path prefixes that get the map-range rewrite only")
 	flagTags     = flag.String("tags", "safe", "build tags")
 	flagReport   = flag.String("report", "", "write JSON report here")
 	flagNoYields = flag.Bool("noyields", false, "do not insert yield points")
@@ -83,7 +83,12 @@ func main() {
 	sort.Slice(all, func(i, j int) bool { return all[i].PkgPath < all[j].PkgPath })
 	for _, p := range all {
 		full := strings.HasPrefix(p.PkgPath, *flagFull)
-		mapOnly := *flagMapOnly != "" && strings.HasPrefix(p.PkgPath, *flagMapOnly)
+		mapOnly := false
+		for _, pre := range strings.Split(*flagMapOnly, ",") {
+			if pre != "" && strings.HasPrefix(p.PkgPath, pre) {
+				mapOnly = true
+			}
+		}
 		if !full && !mapOnly {
 			continue
 		}
@@ -118,7 +123,11 @@ func main() {
 				}
 			}
 			if !full {
-				rel = "gonum/" + rel
+				if strings.Contains(p.PkgPath, "antlr") {
+					rel = "antlr/" + rel
+				} else {
+					rel = "gonum/" + rel
+				}
 			}
 			in := &instr{pkg: p, file: f, rel: rel, rep: rep, full: full}
 			changed := in.run()
